@@ -61,9 +61,9 @@ def asFieldName (xmlName : String) : String :=
 
 /-- Rust `str::trim` (ASCII white space and the common Unicode spaces), on characters -/
 def isWs (c : Char) : Bool :=
-  c == ' ' || c == '\n' || c == '\t' || c == '\r' || c == '\x0b' || c == '\x0c' || c == '\u0085' || c == '\u00a0'
-    || c == '\u1680' || c == '\u2028' || c == '\u3000' || c == '\u2029' || (c.toNat ≥ 0x2000 && c.toNat ≤ 0x200a)
-    || c == '\u202f' || c == '\u205f'
+  let n := c.toNat
+  n == 0x20 || (0x09 ≤ n && n ≤ 0x0d) || n == 0x85 || n == 0xa0 || n == 0x1680 || (0x2000 ≤ n && n ≤ 0x200a)
+    || n == 0x2028 || n == 0x2029 || n == 0x202f || n == 0x205f || n == 0x3000
 
 def trimWs (cs : List Char) : List Char := ((cs.dropWhile isWs).reverse.dropWhile isWs).reverse
 
